@@ -199,7 +199,7 @@ def build_fail(st, r):
     fresh = [n for n in ["f1", "f2", "f3", "f4"] if n not in names and n not in m.undefined_mentions()]
     fa = fresh[0] if fresh else "zz1"
     fb = fresh[1] if len(fresh) > 1 else "zz2"
-    k = gen.choice(r, [0, 1, 1, 1, 2, 3, 4, 5, 6, 7, 8, 9, 10, 10, 11, 12, 13, 13])
+    k = gen.choice(r, [0, 1, 1, 1, 2, 3, 4, 5, 6, 7, 8, 9, 10, 10, 11, 12, 13, 13, 14, 14])
     real_named = [x for x in m.recs if M.name_of(x) is not None and not (version == "gfa1" and x.rt in "LC")]
     if k == 0 and real_named:
         nm = M.name_of(gen.choice(r, real_named))
@@ -286,6 +286,16 @@ def build_fail(st, r):
         i = gen.choice(r, cands)
         n_, t_, _v = [t for t in m.recs[i].tags if t[1] in "ifHB" and t[0] in gen.TAG_NAMES][0]
         return ["fail", "set", i, n_, {"i": "12x", "f": "1.2.3", "H": "XYZ", "B": "c,999"}[t_], "set", "invalid_value_vlevel3"]
+    if k == 14 and version == "gfa2":
+        # the line a placeholder is waiting for arrives (as a Line object read without validation)
+        # with intervals that are refused when it is connected
+        pend = [n for n in sorted(m.undefined_mentions()) if n in H.POOL["E"]]
+        segs = m.segment_names()
+        if not pend or not segs:
+            return None
+        a, b = gen.choice(r, segs), gen.choice(r, segs)
+        return ["fail", "add_instance", "E\t%s\t%s+\t%s-\t5\t2\t0\t1\t*" % (gen.choice(r, pend), a, b), version,
+                "bad_interval_on_placeholder_v0"]
     if k == 13:
         # a line that uses the identifier of a line of another type where a segment stands
         other = [M.name_of(x) for x in real_named if x.rt != "S"]
